@@ -498,55 +498,93 @@ Qed.
 
 (* scanIdentifier: the identifier is a prefix of the input made of name characters and dots, and the top level
    it is judged by is the first segment *)
-Lemma ident_spec : forall w buf top,
-  let '(b', t', k) := p_ident isln w buf top in
+Lemma p_ident_name c r buf top : c <> r_dot -> name_char c = true ->
+  p_ident isln (c :: r) buf top = p_ident isln r (buf ++ [c]) top.
+Proof. intros Hc EN. cbn [p_ident]. destruct (N.eqb_spec c r_dot); [contradiction|]. cbn [andb]. rewrite EN. reflexivity. Qed.
+
+Lemma p_ident_stop c r buf top : c <> r_dot -> name_char c = false ->
+  p_ident isln (c :: r) buf top = (buf, top, c :: r).
+Proof. intros Hc EN. cbn [p_ident]. destruct (N.eqb_spec c r_dot); [contradiction|]. cbn [andb]. rewrite EN. reflexivity. Qed.
+
+Lemma p_ident_dot_name d r buf top : name_char d = true ->
+  p_ident isln (r_dot :: d :: r) buf top = p_ident isln r (buf ++ [r_dot; d]) (if text_eqb top [] then buf else top).
+Proof. intros EN. cbn [p_ident]. change (r_dot =? r_dot) with true. cbn [andb]. rewrite EN. reflexivity. Qed.
+
+Lemma p_ident_dot_stop r buf top : match r with [] => True | d :: _ => name_char d = false end ->
+  p_ident isln (r_dot :: r) buf top = (buf, (if text_eqb top [] then buf else top), r_dot :: r).
+Proof.
+  intros EN. cbn [p_ident]. change (r_dot =? r_dot) with true. cbn [andb].
+  destruct r as [|d r']; [reflexivity|]. rewrite EN. reflexivity.
+Qed.
+
+Lemma first_segment_dot r : first_segment (r_dot :: r) = [].
+Proof. cbn [first_segment]. change (r_dot =? r_dot) with true. reflexivity. Qed.
+
+Lemma first_segment_name c r : c <> r_dot -> name_char c = true -> first_segment (c :: r) = c :: first_segment r.
+Proof. intros Hc EN. cbn [first_segment]. destruct (N.eqb_spec c r_dot); [contradiction|]. rewrite EN. reflexivity. Qed.
+
+Lemma first_segment_stop c r : name_char c = false -> first_segment (c :: r) = [].
+Proof. intros EN. cbn [first_segment]. rewrite EN, andb_false_r. reflexivity. Qed.
+
+Definition ident_post (w buf top : text) (x : text * text * text) : Prop :=
+  let '(b', t', k) := x in
   exists idp, b' = buf ++ idp /\ w = idp ++ k /\ ~ In r_at idp
     /\ (top <> [] -> t' = top)
     /\ (top = [] -> buf <> [] -> (if text_eqb t' [] then b' else t') = buf ++ first_segment w).
+
+Lemma text_eqb_nil_ne (t : text) : t <> [] -> text_eqb t [] = false.
+Proof. destruct t; [congruence|reflexivity]. Qed.
+
+Lemma ident_post_stop w buf top : first_segment w = [] ->
+  ident_post w buf top (buf, top, w).
 Proof.
-  assert (Hne : forall t : text, t <> [] -> text_eqb t [] = false) by (intros [|x t] Ht; [congruence|reflexivity]).
+  intros Hf. exists []. rewrite app_nil_r. cbn [app]. repeat split; auto.
+  intros -> Hb. cbn [text_eqb]. rewrite Hf, app_nil_r. reflexivity.
+Qed.
+
+Lemma ident_post_dot_stop r buf top :
+  ident_post (r_dot :: r) buf top (buf, (if text_eqb top [] then buf else top), r_dot :: r).
+Proof.
+  exists []. rewrite app_nil_r. cbn [app]. repeat split; auto.
+  - intros Ht. rewrite (text_eqb_nil_ne _ Ht). reflexivity.
+  - intros -> Hb. cbn [text_eqb]. rewrite (text_eqb_nil_ne _ Hb), first_segment_dot, app_nil_r. reflexivity.
+Qed.
+
+Lemma ident_spec : forall w buf top, ident_post w buf top (p_ident isln w buf top).
+Proof.
   induction w as [|c|c d r IH1 IH2] using list_ind2; intros buf top.
-  - cbn. exists []. rewrite app_nil_r. repeat split; auto. intros -> _. rewrite app_nil_r. reflexivity.
-  - cbn [p_ident]. destruct (N.eqb_spec c r_dot) as [->|Hd].
-    + exists []. rewrite app_nil_r. cbn [andb app]. repeat split; auto.
-      * intros Ht. rewrite (Hne _ Ht). reflexivity.
-      * intros -> Hb. cbn [text_eqb first_segment]. change (r_dot =? r_dot) with true. cbn [negb andb].
-        rewrite (Hne _ Hb), app_nil_r. reflexivity.
-    + cbn [andb]. destruct (name_char c) eqn:EN.
-      * cbn [p_ident]. exists [c]. repeat split; auto.
+  - apply ident_post_stop. reflexivity.
+  - destruct (N.eqb_spec c r_dot) as [->|Hd].
+    + rewrite p_ident_dot_stop by exact I. apply ident_post_dot_stop.
+    + destruct (name_char c) eqn:EN.
+      * rewrite p_ident_name by assumption. cbn [p_ident].
+        exists [c]. repeat split; auto.
         { intros [H|[]]. subst c. rewrite name_char_at in EN. discriminate. }
-        intros -> Hb. cbn [text_eqb first_segment]. destruct (N.eqb_spec c r_dot); [contradiction|].
-        rewrite EN. cbn [negb andb]. reflexivity.
-      * exists []. rewrite app_nil_r. repeat split; auto.
-        intros -> _. cbn [text_eqb first_segment]. rewrite EN, andb_false_r, app_nil_r. reflexivity.
-  - cbn [p_ident]. destruct (N.eqb_spec c r_dot) as [->|Hd].
-    + cbn [andb]. destruct (name_char d) eqn:EN.
-      * specialize (IH1 (buf ++ [r_dot; d]) (if text_eqb top [] then buf else top)).
+        intros -> Hb. cbn [text_eqb]. rewrite first_segment_name by assumption. reflexivity.
+      * rewrite p_ident_stop by assumption. apply ident_post_stop. apply first_segment_stop; assumption.
+  - destruct (N.eqb_spec c r_dot) as [->|Hd].
+    + destruct (name_char d) eqn:EN.
+      * rewrite p_ident_dot_name by exact EN.
+        specialize (IH1 (buf ++ [r_dot; d]) (if text_eqb top [] then buf else top)).
         destruct (p_ident isln r (buf ++ [r_dot; d]) _) as [[b' t'] k].
         destruct IH1 as (idp & E1 & E2 & E3 & E4 & E5).
         exists (r_dot :: d :: idp). rewrite E1, <- app_assoc, E2. cbn [app]. repeat split; auto.
         { intros [H|[H|H]]; [discriminate| |contradiction]. subst d. rewrite name_char_at in EN. discriminate. }
-        { intros Ht. rewrite (Hne _ Ht) in E4. auto. }
+        { intros Ht. rewrite (text_eqb_nil_ne _ Ht) in E4. auto. }
         intros -> Hb. cbn [text_eqb] in E4. specialize (E4 Hb). subst t'.
-        rewrite (Hne _ Hb). cbn [first_segment]. change (r_dot =? r_dot) with true. cbn [negb andb].
-        rewrite app_nil_r. reflexivity.
-      * exists []. rewrite app_nil_r. cbn [app]. repeat split; auto.
-        { intros Ht. rewrite (Hne _ Ht). reflexivity. }
-        intros -> Hb. cbn [text_eqb first_segment]. change (r_dot =? r_dot) with true. cbn [negb andb].
-        rewrite (Hne _ Hb), app_nil_r. reflexivity.
-    + cbn [andb]. destruct (name_char c) eqn:EN.
-      * specialize (IH2 (buf ++ [c]) top).
+        rewrite (text_eqb_nil_ne _ Hb), first_segment_dot, app_nil_r. reflexivity.
+      * rewrite p_ident_dot_stop by exact EN. apply ident_post_dot_stop.
+    + destruct (name_char c) eqn:EN.
+      * rewrite p_ident_name by assumption.
+        specialize (IH2 (buf ++ [c]) top).
         destruct (p_ident isln (d :: r) (buf ++ [c]) top) as [[b' t'] k].
         destruct IH2 as (idp & E1 & E2 & E3 & E4 & E5).
         exists (c :: idp). rewrite E1, <- app_assoc, E2. cbn [app]. repeat split; auto.
         { intros [H|H]; [|contradiction]. subst c. rewrite name_char_at in EN. discriminate. }
-        intros -> Hb. rewrite E5; auto.
-        2:{ intros E. apply app_eq_nil in E. destruct E; discriminate. }
-        rewrite <- app_assoc. cbn [app]. f_equal.
-        rewrite <- E2. cbn [first_segment]. destruct (N.eqb_spec c r_dot); [contradiction|].
-        rewrite EN. reflexivity.
-      * exists []. rewrite app_nil_r. cbn [app]. repeat split; auto.
-        intros -> _. cbn [text_eqb first_segment]. rewrite EN, andb_false_r, app_nil_r. reflexivity.
+        intros -> Hb. rewrite <- E2, (first_segment_name c) by assumption.
+        assert (Hb' : buf ++ [c] <> []) by (intros E; apply app_eq_nil in E; destruct E; discriminate).
+        specialize (E5 eq_refl Hb'). rewrite E1, <- !app_assoc in E5. exact E5.
+      * rewrite p_ident_stop by assumption. apply ident_post_stop. apply first_segment_stop; assumption.
 Qed.
 
 (* the whole token loop *)
@@ -580,24 +618,23 @@ Proof.
   (* first iteration of the identifier loop: d is a name character *)
   pose proof (ident_spec r' [d] []) as HI.
   assert (Hstep : p_ident isln (d :: r') [] [] = p_ident isln r' [d] []).
-  { cbn [p_ident]. destruct (N.eqb_spec d r_dot); [contradiction|]. cbn [andb]. rewrite EN. reflexivity. }
+  { rewrite p_ident_name by assumption. reflexivity. }
   rewrite Hstep in HS. destruct (p_ident isln r' [d] []) as [[b' t'] k].
   destruct HI as (idp & E1 & E2 & E3 & _ & E5).
   specialize (E5 eq_refl ltac:(discriminate)).
   assert (Hfs : first_segment (d :: r') = [d] ++ first_segment r').
-  { cbn [first_segment]. destruct (N.eqb_spec d r_dot); [contradiction|]. rewrite EN. reflexivity. }
+  { rewrite first_segment_name by assumption. reflexivity. }
   rewrite E5, <- Hfs in HS. apply negb_true_iff in Hrej. rewrite Hrej in HS.
   destruct HS as (-> & -> & HR'). cbn [toktype_eqb] in H.
   destruct (scan_all_loop isln lower tops true f i') as [rest| |] eqn:EL; cbn [bind] in H; try discriminate.
   inversion H; subst. cbn [template_tokens].
   assert (Hk : no_start tops k = true).
-  { rewrite <- Hns. change (d :: idp ++ k) with ((d :: idp) ++ k). symmetry. apply no_start_app_noat.
-    intros [Hx|Hx]; [congruence|contradiction]. }
+  { rewrite <- Hns. symmetry. apply no_start_app_noat. exact E3. }
   rewrite (IH _ _ _ HR' Hk EL).
   rewrite unescape_at_at_other by exact Ha.
   change (d :: idp ++ k) with ((d :: idp) ++ k). rewrite unescape_at_app_noat.
   2:{ intros [Hx|Hx]; [congruence|contradiction]. }
-  cbn [app]. rewrite <- app_assoc. reflexivity.
+  reflexivity.
 Qed.
 
 (* Evaluator.Template (allowed top levels = Some tops, unescapeBody = true) on expression-free text, for
